@@ -97,7 +97,7 @@ def make_ref(tmpdir):
     return ReferenceTest(_assert_fn)
 
 
-def call_entry(ref, entry, la, le, kw, workdir, nl_a=True, nl_e=True, tag='x', actual_path=None):
+def call_entry(ref, entry, la, le, kw, workdir, nl_a=True, nl_e=True, tag='x', actual_path=None, first_pair=None):
     """Runs one assertion entry point on real files; returns ('pass'|'fail'|'error', message)."""
     def text(ls, nl):
         return '\n'.join(ls) + ('\n' if nl and ls else '')
@@ -116,12 +116,13 @@ def call_entry(ref, entry, la, le, kw, workdir, nl_a=True, nl_e=True, tag='x', a
                     ref.assertTextFileCorrect(ap, rp, **kw)
                 else:
                     # a list of two pairs: the pair under test and an identical pair
+                    # (or a first pair given by the caller, e.g. one on which an exclusion takes effect)
                     rp2 = os.path.join(workdir, 'ref2_%s.txt' % tag)
                     with open(rp2, 'w', encoding='utf-8') as f:
-                        f.write('same\n')
+                        f.write(text(first_pair[1], True) if first_pair else 'same\n')
                     ap2 = os.path.join(workdir, 'act2_%s.txt' % tag)
                     with open(ap2, 'w', encoding='utf-8') as f:
-                        f.write('same\n')
+                        f.write(text(first_pair[0], True) if first_pair else 'same\n')
                     ref.assertTextFilesCorrect([ap2, ap], [rp2, rp], **kw)
         return 'pass', ''
     except Fail as e:
